@@ -58,6 +58,11 @@ CHECKS = {
   text="The shared process-wide state (atom table, variable counter) is exercised by every combination of short thread programs forced to collide on names that are new in each execution, under all interleavings at lock/unlock/atomic operations up to 3 (quick) / 6 (thorough) preemptions; linearizability against a sequential map is decided per schedule. Isolation is decided exhaustively for 19 mutators x 23 observers in two stream configurations. Data-race freedom proper is left to the race detector on free-running runs of the same kind of bodies, because a cooperative scheduler cannot see unsynchronised accesses.",
   note="Trusted: shim lock model, porcupine v1.3.0, Go race detector. Memory-model effects weaker than sequential consistency are not explored.",
   design="DESIGN.md §3 C14"),
+ "C17": dict(
+  technique="bounded-exhaustive enumeration of grammars (all rule bodies up to a length bound over 33 body constructs, 4 rule variants, loaded through Exec and through expand_term/2 + assertz/1) x all input lists up to a length bound on the real interpreter, compared with a direct (non-translating) interpreter of grammar bodies inside the reference machine",
+  text="Every grammar of the enumerated family is loaded into a fresh real interpreter and queried with phrase/2 and phrase/3 for every input list up to the bound, for all remainders, and in generation mode; success/failure, the bindings of the non-terminals' arguments, the remainder and the answer order must equal those of a reference that interprets grammar bodies directly over difference lists and never translates a rule.",
+  note="Trusted: the direct DCG interpreter in ref/solve.go (sequence, alternation, {}, \\+, !, call//N, if-then-else, push-back) and the reference machine underneath.",
+  design="DESIGN.md §3 C17"),
  "C16": dict(
   technique="bounded-exhaustive enumeration of call patterns on the real interpreter against relations computed by brute force: every instantiation pattern the modes admit x every combination of bound values (matching and non-matching), answers compared as multisets; infinite / variable-creating modes against the reference machine",
   text="For each of the 17 predicates the complete relation over a finite domain (multi-byte characters, lists, integers near the 64-bit limits) is enumerated by brute force and every admissible call pattern is compared with the matching subset of the relation, each tuple exactly once - which also yields the monotonicity clause of the property.",
